@@ -241,6 +241,8 @@ class C14(Property):
         for c in cases:
             ic = impl.get(c.id)
             t = c.tags
+            if "kind" not in t:
+                continue            # a replayed line: only the differential part applies
             dist[t["kind"]] = dist.get(t["kind"], 0) + 1
             if ic is None or ic[0] != "COMP":
                 out.append(Finding("violation", c, "completion was requested (last item %r) but the outcome is %s" % (t["typed"], common.show(ic))))
@@ -356,16 +358,23 @@ class C14(Property):
         return out
 
     def known_class(self, cls, f):
-        if cls == "value_of_hidden_argument" and f.kind == "violation" and "does not match what was typed" in f.detail:
-            typed = f.case.tags["typed"]
-            if "=" not in typed or f.case.opts is None:
+        if cls == "exact_name_in_alternative" and f.kind == "violation" and "is not offered" in f.detail and f.case.opts is not None:
+            # the typed word IS the complete long name of an item inside a choice at the active level: that branch consumes
+            # it and wins, and the hints of the sibling branches -- among them a LONGER name extending the typed word -- are
+            # dropped with the losing branch
+            t = f.case.tags
+            typed = t["typed"]
+            if not typed.startswith("--") or len(typed) < 3:
                 return False
-            key = typed.split("=")[0]
-            for x in gen.walk(f.case.opts):
-                if x["k"] == "hide":
-                    for y in gen.walk(x["p"]):
-                        if y["k"] == "arg" and (key in ["--" + l for l in y["n"]["long"]] or key in ["-" + c for c in y["n"]["short"]]):
-                            return True
+            lv = t["levels"].get(t["level"])
+            if lv is None:
+                return False
+            leaves = level_leaves(lv["p"])
+            exact = [a for node, hid, a, j in leaves if node["k"] in ("flag", "arg") and a is not None and typed[2:] in node["n"]["long"]]
+            longer = [a for node, hid, a, j in leaves if node["k"] in ("flag", "arg") and a is not None and node["n"]["long"]
+                      and node["n"]["long"][0] != typed[2:] and node["n"]["long"][0].startswith(typed[2:])
+                      and ("'--%s'" % node["n"]["long"][0]) in f.detail]
+            return any(a in exact for a in longer)
         return False
 
 
